@@ -114,7 +114,8 @@ fn main() {
         }
     } else {
         let thorough = tier == "thorough";
-        match args[1].to_uppercase().as_str() {
+        let id = args[1].to_uppercase();
+        let r = util::catch(|| match id.as_str() {
             "C01" => c01::run(thorough),
             "C02" => c02::run(thorough),
             "C03" => c03::run(thorough),
@@ -137,6 +138,15 @@ fn main() {
             "C20" => c20::run(thorough),
             other => {
                 eprintln!("unknown check {}", other);
+                2
+            }
+        });
+        match r {
+            Ok(c) => c,
+            Err(p) => {
+                // a panic that escaped every catch around the subject is the harness's own: never a verdict
+                report::outln(&format!("MACHINERY-ERROR {}: the harness panicked: {}", id, p));
+                eprintln!("MACHINERY-ERROR {}: the harness panicked: {}", id, p);
                 2
             }
         }
